@@ -260,7 +260,9 @@ macro_rules! with_lang {
     }};
 }
 
-pub const THRESHOLDS: [&str; 8] = ["0", "1", "3", "10", "100", "-1", "inf", "nan"];
+pub const THRESHOLDS: [&str; 18] = [
+    "0", "1", "3", "10", "100", "-1", "inf", "nan", "0", "10", "2.5", "0.5", "1e300", "-0", "5e-324", "9", "11", "1000",
+];
 
 pub fn threshold_of(s: &str) -> f64 {
     match s {
@@ -270,8 +272,8 @@ pub fn threshold_of(s: &str) -> f64 {
     }
 }
 
-pub const PUNCT: [&str; 10] = [",", ".", ";", "…", "!", "?", ":", ", ", ". ", " ; "];
-pub const GLUE: [&str; 6] = [" ", "  ", "\t", "-", "\n", "\u{a0}"];
+pub const PUNCT: [&str; 16] = [",", ".", ";", "…", "!", "?", ":", ", ", ". ", " ; ", "...", "--", "'", "''", "(", "/"];
+pub const GLUE: [&str; 8] = [" ", "  ", "\t", "-", "\n", "\u{a0}", "", "\u{2003}"];
 
 /// Like `with_lang!`, but with an interpreter built for this run only: runs stay independent
 /// of each other (and of the other worker threads), so every violation replays from its own
